@@ -169,8 +169,17 @@ fn function<'t>(ctx: Context<'t>) -> ParseResult<'t, Expression> {
 
             // Parse return type
             T::Arrow => {
+                // A newline right after the arrow ends the signature, also
+                // inside brackets where newlines are otherwise skipped. The
+                // body might start with something that looks like a type.
+                let ends_line = ctx.tokens[(ctx.curr + 1).min(ctx.tokens.len())..]
+                    .iter()
+                    .find(|t| !matches!(t, T::Comment(_)))
+                    .map_or(false, |t| matches!(t, T::Newline));
                 ctx = ctx.skip(1);
-                break if let Ok((ctx_, ret)) = parse_type(ctx) {
+                break if ends_line {
+                    Type { span: ctx.span(), kind: Resolved(Unknown) }
+                } else if let Ok((ctx_, ret)) = parse_type(ctx) {
                     ctx = ctx_; // assign to outer
                     ret
                 } else {
